@@ -16,7 +16,7 @@ RULE = ("(A) every ranked list of n<=7 (quick) / n<=8 (thorough) positions, each
         "C01 model) vs targets with q<=alpha from the real tdc; (B) for every arrangement of n<=7/8 positions the sum of "
         "the FDP over all labellings from the real tdc vs the model and vs alpha*2^m; (C) simulated datasets with ground "
         "truth (correct targets, null targets and decoys from the same null) through the real read_pin + brew with a "
-        "memorising learner, folds 2-5. non-trivial = list has a null target above a correct target or a decoy in the top half; "
+        "memorising learner, folds 2-5, 10, 12. non-trivial = list has a null target above a correct target or a decoy in the top half; "
         "all pipeline cases")
 ASSUMPTIONS = [
     "exchangeability of null targets and decoys is the property's premise (simulated, not proved)",
@@ -66,7 +66,7 @@ def gen(ctx):
     for k in range(40 if ctx.thorough else 10):
         n = rng.randint(150, 400 if ctx.thorough else 260)
         f = _simulate(rng, n)
-        cases.append({"fn": "pipeline", "files": [f], "folds": rng.randint(2, 5), "seed": rng.randint(0, 10 ** 6),
+        cases.append({"fn": "pipeline", "files": [f], "folds": rng.choice([2, 3, 4, 5, 10, 12]), "seed": rng.randint(0, 10 ** 6),
                       "test_fdr": "0.25", "train_fdr": 0.25, "learner": "memoriser", "workers": rng.choice([1, 3]),
                       "subset_max_train": rng.choice([None, n // 3, n // 2]), "chunks": {}, "fmt": "tsv", "row_group": None,
                       "est_mode": "decision", "tags": ["pipeline", "memoriser"]})
